@@ -101,6 +101,8 @@ package input
 //@ func PutPoint
 //@ props C10 C15 C01
 //@ noinv pt
+// the point is cleared and goes back to its pool: nobody is owed its invariant afterwards
+//@ releases pt
 //@ observe m string = pt.Measurement
 //@ observe tags map[string]string = pt.Tags
 //@ observe fields map[string]any = pt.Fields
